@@ -267,7 +267,7 @@ def gen_ops(rng, n, weights=None, pool_uids=0):
     """Abstract operations; targets are indices resolved against the live tree at run time."""
     w = {"create_group": 3, "create_object": 5, "add_data": 7, "rename": 2, "flag": 2, "set_values": 3,
          "set_geometry": 2, "move": 3, "remove_ws": 3, "remove_parent": 2, "copy": 3, "pg_add": 3, "pg_remove": 1,
-         "reopen": 2, "gc": 1, "protect": 1, "retype": 1}
+         "reopen": 2, "gc": 1, "protect": 1, "retype": 1, "reattach": 1}
     w.update(weights or {})
     kinds = [k for k, c in w.items() for _ in range(c)]
     ops = []
@@ -423,6 +423,10 @@ class Session:
             if e is None:
                 return
             name = self.next_name("n")
+            if op["c"] % 5 == 0 and not getattr(self, "project_name_used", False):
+                # once per history an entity takes the name of the project node of the file itself
+                name = str(getattr(self.ws, "name", "GEOSCIENCE"))
+                self.project_name_used = True
             e.name = name
             self.events.append(f"rename {self.uids.num(e.uid)} -> {name}")
             self.record({"o": "rename", "u": self.uids.num(e.uid), "name": name}, "ok")
@@ -518,6 +522,25 @@ class Session:
             e.parent = target
             self.events.append(f"move {self.uids.num(e.uid)} under {self.uids.num(target.uid)}")
             self.record({"o": "move", "u": self.uids.num(e.uid), "parent": self.uids.num(target.uid)}, "ok")
+            return
+        if k == "reattach":
+            # take an entity out of its parent's children and put it back under the same parent: the tree does not change
+            # (for the model a move to the parent it already has), the file link is only restored when the workspace is closed
+            def movable(x):
+                if not not_root(x) or not x.allow_delete:
+                    return False
+                if is_data(x):
+                    return not any(x.uid in (g.properties or []) for g in (getattr(x.parent, "property_groups", None) or []))
+                return True
+            e = self.pick(ents, op["a"], movable)
+            if e is None:
+                return
+            par = e.parent
+            par.remove_children([e])
+            e.parent = par
+            self.events.append(f"reattach {self.uids.num(e.uid)} under {self.uids.num(par.uid)}")
+            self.record({"o": "move", "u": self.uids.num(e.uid), "parent": self.uids.num(par.uid)}, "ok")
+            del par
             return
         if k in ("remove_ws", "remove_parent"):
             e = self.pick(ents, op["a"], not_root)
